@@ -33,7 +33,8 @@ impl XsdDateTime {
 
         let c = RE.captures(s)?;
         let sign: i32 = c.get(1).map(|_| -1).unwrap_or(1);
-        let year: i32 = c.get(2).unwrap().as_str().parse().unwrap();
+        // NB: the regex does not bound the number of digits of the year
+        let year: i32 = c.get(2).unwrap().as_str().parse().ok()?;
         let mdhms = c.get(3).unwrap().as_str();
         let month: u32 = mdhms[..2].parse().unwrap();
         let day: u32 = mdhms[3..5].parse().unwrap();
